@@ -500,6 +500,75 @@ func C16(r *h.Run) {
 		}
 	}
 
+	// One option VALUE listed more than once inside one bundle (WithOptions(a, b, a)): the list
+	// is what was declared, repetitions included
+	for k := 0; k < r.N(12, 80); k++ {
+		side := []string{"client_unary", "handler_unary"}[k%2]
+		client := side == "client_unary"
+		log := &evlog{}
+		n := 2 + rng.Intn(3)
+		vals := make([]connect.Option, n)
+		for j := range vals {
+			vals[j] = connect.WithInterceptors(&logIcpt{id: j + 1, log: log})
+		}
+		m := 3 + rng.Intn(3)
+		var bundle []connect.Option
+		var flat []int
+		for j := 0; j < m; j++ {
+			x := rng.Intn(n)
+			bundle = append(bundle, vals[x])
+			flat = append(flat, x+1)
+		}
+		var copts []connect.ClientOption
+		var hopts []connect.HandlerOption
+		kindName := ""
+		switch k % 3 {
+		case 0:
+			kindName = "WithOptions"
+			o := connect.WithOptions(bundle...)
+			copts, hopts = []connect.ClientOption{o}, []connect.HandlerOption{o}
+		case 1:
+			kindName = "WithClientOptions / WithHandlerOptions"
+			co := make([]connect.ClientOption, len(bundle))
+			ho := make([]connect.HandlerOption, len(bundle))
+			for j, b := range bundle {
+				co[j], ho[j] = b, b
+			}
+			copts, hopts = []connect.ClientOption{connect.WithClientOptions(co...)}, []connect.HandlerOption{connect.WithHandlerOptions(ho...)}
+		default:
+			kindName = "top-level option list"
+			for _, b := range bundle {
+				copts, hopts = append(copts, b), append(hopts, b)
+			}
+		}
+		if client {
+			hopts = nil
+		} else {
+			copts = nil
+		}
+		mux := http.NewServeMux()
+		mux.Handle("/verif.Svc/Unary", connect.NewUnaryHandler("/verif.Svc/Unary",
+			func(_ context.Context, req *connect.Request[bv]) (*connect.Response[bv], error) {
+				return connect.NewResponse(&bv{Value: req.Msg.Value}), nil
+			}, hopts...))
+		var callErr error
+		p := safely(func() {
+			c := connect.NewClient[bv, bv](&h.LocalClient{Handler: mux}, "http://verif.local/verif.Svc/Unary", copts...)
+			_, callErr = c.CallUnary(context.Background(), connect.NewRequest(&bv{Value: []byte("x")}))
+		})
+		in := map[string]any{"side": side, "bundle": kindName, "positions_of_the_option_values_listed": flat}
+		r.Eval("repeated_option_values", fmt.Sprint(side, kindName, flat))
+		if p != nil || callErr != nil {
+			r.Fail(h.Failure{Key: "interceptors/panic", Family: "repeated_option_values", What: fmt.Sprint("panic or failed call: ", p, callErr), Input: in})
+			continue
+		}
+		enter := filterLog(log.ev, "enter")
+		r.Sample("repeated_option_values", map[string]any{"in": in, "enter_order": enter})
+		if !intsEq(enter, flat) {
+			r.Fail(h.Failure{Key: "interceptors/order", Family: "repeated_option_values", What: "an option value listed more than once: the chain is not the flat concatenation of what was declared", Input: in, Expected: flat, Actual: enter})
+		}
+	}
+
 	// WithRecover is one more interceptor in the declared list: it recovers panics of what is
 	// declared AFTER it (inside it), not of what is declared before it (outside it)
 	for _, stream := range []bool{false, true} {
